@@ -30,7 +30,7 @@ def main():
         code = mod.run(ctx)
     except Exception:
         traceback.print_exc()
-        sys.exit(2)
+        sys.exit(core.emergency_report(ctx))
     sys.exit(code)
 
 
